@@ -101,6 +101,10 @@ def strat_state(draw, tier):
                                        if list(c) not in silent]))
     nblocks = draw(st.integers(0, 4))
     iobuf_size = draw(st.sampled_from([16, 64, 100]))
+    if draw(st.integers(0, 11)) == 0:
+        # a core that has printed a lot: a long chain of small blocks
+        nblocks = draw(st.sampled_from([40, 64, 65, 70, 130, 260]))
+        iobuf_size = 16
     blocks = [b64(draw(st.binary(max_size=iobuf_size)))
               for _ in range(nblocks)]
     text_blocks = draw(st.booleans())
@@ -216,7 +220,7 @@ def check_state(case):
         blocks2 = [base64.b64decode(b) for b in p2["blocks"]]
         addr2 = 0
         for i in reversed(range(len(blocks2))):
-            here = scamp.IOBUF_AREA + (8 + i) * 0x400
+            here = scamp.IOBUF_AREA + (300 + i) * 0x400
             chip2.mem.write(here, struct.pack("<4I", addr2, 0, 0,
                                               len(blocks2[i])) + blocks2[i] +
                             b"\xdd" * (p2["iobuf_size"] - len(blocks2[i])))
@@ -456,7 +460,7 @@ def check_state(case):
     return {"nontrivial": dead_or_silent and len(patterns) >= 2,
             "classes": cls + (["silent"] if case["silent"] else []) +
                        (["sparse"] if case["w"] > 12 or case["h"] > 12
-                        else []) + ["iobuf%d" % len(blocks)] + (
+                        else []) + ["iobuf%d" % min(len(blocks), 40)] + (
                             ["second-iobuf-other-size"] if p2 and
                             p2["iobuf_size"] != pr["iobuf_size"] else [])}
 
